@@ -222,7 +222,7 @@ func c03RunLoop(in c03LoopInput) (keys []interface{}, err error) {
 
 func c03LoopSuite(r *Result, rng *rand.Rand, tier string) {
 	n := 1500
-	if tier != "quick" {
+	if tier == "thorough" {
 		n = 12000
 	}
 	var ops [][]interface{}
@@ -443,7 +443,7 @@ func c03GenDB(rng *rand.Rand, tier string) c03DBInput {
 		in.Max = int64(1 + rng.Intn(40))
 	}
 	n := 1 + rng.Intn(9)
-	if tier != "quick" && rng.Intn(5) == 0 {
+	if tier == "thorough" && rng.Intn(5) == 0 {
 		n = 10 + rng.Intn(30)
 	}
 	// preset keys are distinct multiples of 1000 so that they never collide with generated ids (the model has
@@ -529,7 +529,7 @@ func c03JudgeDB(r *Result, in c03DBInput, model json.RawMessage) {
 
 func c03DBSuite(r *Result, rng *rand.Rand, tier string) {
 	n := 250
-	if tier != "quick" {
+	if tier == "thorough" {
 		n = 4000
 	}
 	// dedicated probe of the listed finding (witness of C03_backfill_mixed_counterexample)
